@@ -43,11 +43,13 @@ static std::string pattern(Rng& rng, const std::string& t)
 	return v;
 }
 
+static TmpDir* g_tmpdir = 0;
 static void die(const std::string& msg)
 {
 	fprintf(stderr, "VREC-FAIL: %s\n", msg.c_str());
 	fflush(stderr);
-	_exit(3); // no destructors, no leak report: the message is the finding
+	if (g_tmpdir) g_tmpdir->~TmpDir(); // the scratch directory goes away; nothing else is destroyed
+	_exit(3); // no leak report: the message is the finding
 }
 
 struct Pending { int kind; std::string t; int n; std::string order; }; // kind 0 scalar, 1 array (n elements), 2 string (n bytes)
@@ -201,6 +203,7 @@ int main(int argc, char** argv)
 	Rng rng(args.seed);
 	Log log(args.out);
 	TmpDir tmp;
+	g_tmpdir = &tmp;
 	bool av = args.avoid.count("NativeOrderArrayLength") > 0;
 	int k = (int)(args.seed % 4);
 	while (log.lines < args.events)
